@@ -23,8 +23,15 @@ side ExpandDecl = the manual's textual substitution carried out by hand), progra
     label defined before, used inside and after, another label defined after an inner REPT/IRP/IRPN/IRPC/WHILE/
     macro call/empty macro/INCLUDE with 0..3 iterations, same-named global label present); nested
     INCLUDE depth 1..3 from REPT and from a macro; BINCLUDE windows over files of 0..600 bytes; INTLABEL, ALLARGS
-    to IRP, macro defining a macro, ATTRIBUTE on 68000; the nesting family) and prints for each program P the hand
-    expansion E = ExpandDecl(P).  The harness renders P (seed-chosen letter case / white space / label colon) and E,
+    to IRP, macro defining a macro, ATTRIBUTE on 68000; the nesting family; family `binctx`: the TARGET as a
+    dimension - BINCLUDE at top level / in a MACRO / REPT / IRP / WHILE / REPT inside a macro / an INCLUDEd file /
+    an INCLUDE inside REPT, windows of even, odd and zero length and of more than one 256-byte chunk, FOLLOWED in the
+    same body by nothing / byte / word / long data / a machine instruction and after the construct by one of these
+    and a label that depends on every length, rendered for every target the specification lists (MacroProg.Targets*:
+    every combination of TurnWords x ListGran {1, 2, 4} that occurs among the byte-addressed targets, big- and
+    little-endian data statements, targets that pad odd addresses - z80, 68hc12, msp430, 80960, m16c, 68000,
+    tms9900, sh7000, z8001, am29000, ppc403; thorough 21 targets)) and prints for each program P the hand expansion
+    E = ExpandDecl(P) and the set of targets it is to be assembled for.  The harness renders P (seed-chosen letter case / white space / label colon) and E,
     assembles both with the real asl and compares the code files (records coalesced; raw record boundaries are only
     a SPEC-DRIFT) and, when both are rejected, the error numbers.
 (V) MacroProc_Trace: for generated programs without a named deviation the `line` hook events of the real run (text
@@ -44,7 +51,10 @@ the model leaves raw parameter tokens / dies with SIGSEGV where the model derefe
 NOT covered: READ, FUNCTION, STRUCT expansion, section-local macros (PUBLIC/GLOBAL), EXPORT/-M output, listing
 control (C19), NESTMAX exhaustion, case-sensitive mode (-U), quoting of commas in arguments, macro use before
 definition (pass-dependent by the manual), ARGCOUNT with fewer arguments than formals and formals left without an
-argument by SHIFT (manual contradictory / silent: marked indef, not judged).  Golden tests the corpus trace cannot
+argument by SHIFT (manual contradictory / silent: marked indef, not judged); BINCLUDE on targets whose address unit
+is wider than a byte (56000, CP-1600, TMS320...): the manual counts BINCLUDE in bytes and does not say how they map to
+words, so there is no hand expansion (observed, not judged: CodeBINCLUDE advances the counter by one WORD per byte
+read and WriteBytes emits length x granularity bytes, the upper part being stale buffer contents).  Golden tests the corpus trace cannot
 follow: #define (text rewritten after the hook), macro-processor arguments containing commas, macro names built by
 {symbol} expansion (t_403, t_821) - 13 of 201, listed in the evidence.
 
@@ -79,9 +89,9 @@ def repaired_in_repo():
             pass
     return "{" + ", ".join('"%s"' % d for d in sorted(out)) + "}"
 
-QUICK_FAMILIES = ["exit", "label", "scope", "incl", "bin", "count", "rec", "shift", "shifthole", "shiftloop", "adj", "bind", "special", "attr", "nest2q"]
+QUICK_FAMILIES = ["exit", "label", "scope", "incl", "bin", "count", "rec", "shift", "shifthole", "shiftloop", "adj", "bind", "special", "attr", "nest2q", "binctx"]
 THOROUGH_FAMILIES = ["exit", "label", "scope", "incl", "bin", "count", "rec", "shift", "shifthole", "shiftloop", "adj", "bind", "special", "attr",
-                     "nest2", "nest3"]
+                     "nest2", "nest3", "binctx"]
 
 
 def _cfg(name, text):
@@ -111,7 +121,7 @@ def mc_cfg(tier, fixed, variant=0):
 def gen_cfg(family, tier):
     return ('CONSTANTS Fixed = %s HasAttrs = %s MaxNum = %d Family = "%s" Tier = "%s"\nINIT Init\nNEXT Next\n'
             'INVARIANTS Dump Agrees\nCHECK_DEADLOCK FALSE\n'
-            % (repaired_in_repo(), "TRUE" if family == "attr" else "FALSE", 700 if family == "bin" else 99, family, tier))
+            % (repaired_in_repo(), "TRUE" if family == "attr" else "FALSE", 700 if family in ("bin", "binctx") else 99, family, tier))
 
 
 DRIFT = {}
@@ -143,15 +153,16 @@ def renderable(o):
     return not any(mr.has_ctrl(l) for f in o["p"].values() for l in f) and not any(mr.has_ctrl(l) for l in o["e"])
 
 
-def dialect_of(o):
-    return "68000" if o["tag"][-1] == "attr" else "z80"
+def targets_of(o):
+    """the targets the specification wants the program assembled for (MacroProc_Gen: field `targets`)"""
+    return sorted(o["targets"])
 
 
-def make_jobs(o, idx):
-    """P (seeded spelling), E (plain), and for programs with a fired deviation M = the as-coded model's list"""
-    d = dialect_of(o)
+def make_jobs(o, idx, d):
+    """P (seeded spelling), E (plain), and for programs with a fired deviation M = the as-coded model's list;
+    d = target (one of targets_of(o))"""
     opts = ["-q", "-n", "-cpu", mr.DIALECTS[d]["cpu"]]
-    r = rng("c11/%d" % idx)
+    r = rng("c11/%d" % idx if len(o["targets"]) == 1 else "c11/%d/%s" % (idx, d))
     bins = {f: bytes(v) for f, v in o["bins"].items()} if isinstance(o["bins"], dict) else {}
     srcP = {f: mr.render_file(ls, d, r, preamble=False) for f, ls in o["p"].items()}
     srcE = {"a.asm": mr.render_file(o["e"], d, None, preamble=False)}
@@ -163,19 +174,22 @@ def make_jobs(o, idx):
     return jobs, srcP, srcE, srcM
 
 
-def judge(rep, o, srcP, srcE, srcM, rp, re_, rm):
-    tag = o["tag"]
+def judge(rep, o, d, srcP, srcE, srcM, rp, re_, rm):
+    tag = o["tag"] if len(o["targets"]) == 1 else o["tag"] + [d]
     devs = sorted(o["devs"])
     key = {"dev_" + d: (d in devs) for d in ALLDEVS}
     files = {"P_" + f: t for f, t in srcP.items()}
     files["E_a.asm"] = srcE["a.asm"]
+    if isinstance(o["bins"], dict):
+        for f, v in o["bins"].items():
+            files["BIN_" + f] = bytes(v)
     files["stderr_P.txt"] = rp.out + rp.err
     files["stderr_E.txt"] = re_.out + re_.err
     if rp.timeout or rp.sig is not None:
         key["kind"] = "crash"
         key["as_model"] = ("IrpDoubleCleanup" in devs and rp.sig == 11)
         rep.violation("asl died (signal=%s timeout=%s) on construct program %s" % (rp.sig, rp.timeout, tag),
-                      case={"tag": tag, "devs": devs}, files=files, key=key)
+                      case={"tag": tag, "devs": devs, "target": d}, files=files, key=key)
         return
     if re_.rc != 0 and rp.rc != 0:
         # both rejected: the hand expansion is not a valid program either (e.g. an operand became empty);
@@ -201,7 +215,7 @@ def judge(rep, o, srcP, srcE, srcM, rp, re_, rm):
     else:
         key["as_model"] = False
     rep.violation("construct program %s does not assemble like its hand expansion (rc %s vs %s; records %s vs %s)"
-                  % (tag, rp.rc, re_.rc, _short(a), _short(c)), case={"tag": tag, "devs": devs, "p": o["p"], "e": o["e"]},
+                  % (tag, rp.rc, re_.rc, _short(a), _short(c)), case={"tag": tag, "devs": devs, "target": d, "p": o["p"], "e": o["e"]},
                   files=files, key=key)
 
 
@@ -272,26 +286,27 @@ def main(tier):
     for i, o in enumerate(outs):
         if o["indef"] or not renderable(o):
             continue          # the manual leaves the outcome open: nothing to judge
-        js, srcP, srcE, srcM = make_jobs(o, i)
-        index.append((o, srcP, srcE, srcM, len(jobs), len(js)))
-        jobs += js
+        for d in targets_of(o):
+            js, srcP, srcE, srcM = make_jobs(o, i, d)
+            index.append((o, d, srcP, srcE, srcM, len(jobs), len(js)))
+            jobs += js
     with Phase("replay %d assemblies of %d programs" % (len(jobs), len(index))):
         res = aslrun.assemble_many(bld, jobs)
-    for (o, srcP, srcE, srcM, at, n) in index:
+    for (o, d, srcP, srcE, srcM, at, n) in index:
         rp, re_ = res[at], res[at + 1]
         rm = res[at + 2] if n == 3 else None
         rep.evaluated()
-        rep.distinct(srcP["a.asm"], nontrivial=True)
-        judge(rep, o, srcP, srcE, srcM, rp, re_, rm)
+        rep.distinct(srcP["a.asm"] if len(o["targets"]) == 1 else d + "\n" + srcP["a.asm"], nontrivial=True)
+        judge(rep, o, d, srcP, srcE, srcM, rp, re_, rm)
     for what, tags in sorted(DRIFT.items()):
         rep.drift("%s: %d programs (first %s)" % (what, len(tags), tags[0]))
-    for (o, srcP, srcE, srcM, at, n) in index[:2] + index[-2:]:
-        rep.sample({"tag": o["tag"], "P": srcP, "E_by_TLC": srcE["a.asm"]})
+    for (o, d, srcP, srcE, srcM, at, n) in index[:2] + index[-2:]:
+        rep.sample({"tag": o["tag"], "target": d, "P": srcP, "E_by_TLC": srcE["a.asm"]})
     rep.traces(len(index))
 
     # ---- (V) trace validation of `line` events -------------------------------------------------------------
     if bld.hooks:
-        cand = [o for o in outs if not o["indef"] and not o["devs"] and renderable(o) and dialect_of(o) == "z80"
+        cand = [o for o in outs if not o["indef"] and not o["devs"] and renderable(o) and targets_of(o) == ["z80"]
                 and o["tag"][0] != "bin"]
         step = max(1, len(cand) // (400 if tier == "quick" else 3000))
         cand = cand[::step]
@@ -391,9 +406,12 @@ def replay(path):
         if fn.startswith("P_"):
             srcP[fn[2:]] = open(os.path.join(path, fn)).read()
     srcE = {"a.asm": open(os.path.join(path, "E_a.asm")).read()}
-    cpu = "68000" if "attr" in str(v.get("case", {}).get("tag")) else "z80"
+    bins = {fn[4:]: open(os.path.join(path, fn), "rb").read() for fn in os.listdir(path) if fn.startswith("BIN_")}
+    case = v.get("case") or {}
+    cpu = mr.DIALECTS[case["target"]]["cpu"] if case.get("target") in mr.DIALECTS else \
+        ("68000" if "attr" in str(case.get("tag")) else "z80")
     for name, src in (("P", srcP), ("E", srcE)):
-        res = aslrun.assemble(bld, src, opts=["-q", "-n", "-cpu", cpu])
+        res = aslrun.assemble(bld, src, opts=["-q", "-n", "-cpu", cpu], binary_sources=bins)
         log("%s: rc=%s sig=%s %s" % (name, res.rc, res.sig, (res.out + res.err).strip()[:600]))
         log("   records: %s" % (_short(records(res)[0]),))
     log("recorded: %s" % v["what"])
@@ -435,6 +453,16 @@ Third round (seed missed: an EMPTY argument in an EXCESS position was dropped fr
 Fourth round (seed missed: SHIFT inside a nested repetition recomputed ARGCOUNT/ALLARGS of the wrong tag) - family
 `shiftloop` added; on a copy of the current /repo:
   ExpandSHIFT calls ComputeMacroStrings(FirstInputTag) instead of (RunTag) -> VIOLATION (shiftloop) (ctest 201/201)
+Fifth round (seed missed: CodeBINCLUDE saved TurnWords AFTER clearing it, so on targets with Motorola word order
+every word / long written after a BINCLUDE stayed unswapped until the next CPU statement).  All programs were
+assembled for the Z80 (TurnWords = False) except one ATTRIBUTE program, and the BINCLUDE family was followed by one
+little-endian DW only: the target was not a dimension of the case space.  Family `binctx` added (the specification
+now names the targets and what the code distinguishes about them, and tells the harness for which targets each
+program is to be assembled); on a copy of the current /repo:
+  CodeBINCLUDE: TurnWords = False; SaveTurnWords = TurnWords; (the seed)   -> VIOLATION (binctx: 608 of 1632 quick
+      programs - 68000, sh7000, tms9900 on DC.W / DC.L / instructions, z8001, am29000, ppc403 on instructions
+      (their Intel style data statements set ActListGran = 1 and are never swapped); none on the targets with
+      TurnWords = False or ListGran = 1, as the code predicts)                                  (ctest 201/201)
 Corrupted traces (MacroProc_CorpusTrace on t_irpn): one token of a delivered body line changed, one delivered line
 dropped, exhausted flag flipped, depth changed -> each REJECTED at the corrupted event.
 All six proposed fixes applied together: 0 violations, no known finding hit, 201/201 golden tests.
